@@ -215,12 +215,20 @@ pub fn judge(c: &Case, rec: &mut Rec) -> Verdict {
         return Verdict::Inconclusive("marker".into());
     }
     let args = args_for(c);
+    // the one destination file whose (first) setxattr was refused with EOPNOTSUPP: a documented warning for that file,
+    // every other file must still carry its attributes
+    let mut xattr_exempt: Option<Vec<u8>> = None;
     let (ok, timed_out, stderr) = if let Some(seed) = c.starve {
-        let mut spec = sup_spec(&sb, args.clone(), vec![], Sched { kind: SchedKind::StarveWorker((seed % 4) as usize), seed, change_points: vec![], parblock: c.parblock });
+        let rules = if seed % 3 == 0 { vec![Rule { sys: vec![Sys::Setxattr], path: PathSel::Sandbox, nth: Nth::Kth(0), action: Action::Errno(libc::EOPNOTSUPP) }] } else { vec![] };
+        let mut spec = sup_spec(&sb, args.clone(), rules, Sched { kind: SchedKind::StarveWorker((seed % 4) as usize), seed, change_points: vec![], parblock: c.parblock });
         spec.umask = umask_of(c);
         let o = Sup::run(spec);
         if o.setup_error.is_some() {
             return Verdict::Inconclusive(format!("supervisor {:?}", o.setup_error));
+        }
+        if let Some(e) = o.log.iter().find(|e| e.act.is_some() && e.sys == Sys::Setxattr) {
+            xattr_exempt = e.path.clone();
+            rec.class("one-setxattr-refused-with-EOPNOTSUPP".to_string());
         }
         (o.ok(), o.timed_out, o.stderr_s())
     } else {
@@ -308,8 +316,9 @@ pub fn judge(c: &Case, rec: &mut Rec) -> Verdict {
                 let lost_special = (sm.mode & 0o7000) != (dm.mode & 0o7000) && (sm.mode & 0o777) == (dm.mode & 0o777);
                 return fail(if lost_special { "special-bits-lost" } else { "mode-differs" }, format!("mode is {:o}, source has {:o}", dm.mode, sm.mode));
             }
+            let exempt = xattr_exempt.as_deref() == Some(pbytes(&dp).as_slice());
             for (k, v) in &sm.xattrs {
-                if k.starts_with("user.") && dm.xattrs.get(k) != Some(v) {
+                if !exempt && k.starts_with("user.") && dm.xattrs.get(k) != Some(v) {
                     return fail("xattr-missing", format!("xattr {} not transferred", k));
                 }
             }
@@ -346,7 +355,7 @@ impl Check for C10 {
         "C10"
     }
     fn rule(&self) -> String {
-        "proptest-generated regular files with mode uniform over 0..07777 (forced coverage of 04000/02000/01000, 0, 07777), mtimes from 1970+1ns to 2100 with sub-second parts, 0-3 user.* xattrs (empty, text, binary with NULs, 3000 bytes; names ASCII, UTF-8 and not valid UTF-8), uid:gid in {0,1,1000,65534}, optional pre-existing destination with its own mode (0..0777, or exactly the source's mode with its special bits, as after an earlier copy), owner and mtime; flags subsets of --no-perms/--no-timestamps/--ownership; umask 0/022/077; both drivers, workers 0..16, block sizes making 1..49 blocks; a tenth of the cases under the supervisor with one starved worker; a quarter as a single file-to-file copy; option noise (--fsync --backup=numbered --reflink=never -v). Oracle on exit 0: mode&07777 equal, mtime equal to the nanosecond, user xattrs equal, with --ownership uid/gid equal and mode still equal; --no-perms: previous mode or 0666&~umask; --no-timestamps: mtime between two marker files touched around the run on the same filesystem. Non-trivial: exit 0 and (special bit or sub-second mtime or xattr or ownership or multi-block); distinct by case hash.".into()
+        "proptest-generated regular files with mode uniform over 0..07777 (forced coverage of 04000/02000/01000, 0, 07777), mtimes from 1970+1ns to 2100 with sub-second parts, 0-3 user.* xattrs (empty, text, binary with NULs, 3000 bytes; names ASCII, UTF-8 and not valid UTF-8), uid:gid in {0,1,1000,65534}, optional pre-existing destination with its own mode (0..0777, or exactly the source's mode with its special bits, as after an earlier copy), owner and mtime; flags subsets of --no-perms/--no-timestamps/--ownership; umask 0/022/077; both drivers, workers 0..16, block sizes making 1..49 blocks; a tenth of the cases under the supervisor with one starved worker, a third of those with the first setxattr refused with EOPNOTSUPP (a documented warning for that file: every other file must still carry its attributes); a quarter as a single file-to-file copy; option noise (--fsync --backup=numbered --reflink=never -v). Oracle on exit 0: mode&07777 equal, mtime equal to the nanosecond, user xattrs equal, with --ownership uid/gid equal and mode still equal; --no-perms: previous mode or 0666&~umask; --no-timestamps: mtime between two marker files touched around the run on the same filesystem. Non-trivial: exit 0 and (special bit or sub-second mtime or xattr or ownership or multi-block); distinct by case hash.".into()
     }
     fn assumptions(&self) -> Vec<String> {
         vec!["runs as root with CAP_CHOWN/CAP_FSETID (the privileged branch the property names); pre-existing destination modes limited to 0..0777".into()]
@@ -374,6 +383,6 @@ impl Check for C10 {
         }
     }
     fn required_classes(&self, _tier: Tier) -> Vec<String> {
-        ["special4000", "special2000", "special1000", "mode0", "|xattr|", "|overwrite|", "multiblock", "starved", "|P", "T", "O|", "umask0|", "umask77|", "single-file", "extra-opts", "setgid-destdir", "prior-owner", "xattr-name=non-utf8", "prior-has-the-source-mode|special=true|ownership=true"].iter().map(|s| s.to_string()).collect()
+        ["special4000", "special2000", "special1000", "mode0", "|xattr|", "|overwrite|", "multiblock", "starved", "|P", "T", "O|", "umask0|", "umask77|", "single-file", "extra-opts", "setgid-destdir", "prior-owner", "xattr-name=non-utf8", "prior-has-the-source-mode|special=true|ownership=true", "one-setxattr-refused-with-EOPNOTSUPP"].iter().map(|s| s.to_string()).collect()
     }
 }
